@@ -78,6 +78,7 @@ type session struct {
 	sigs     map[uint64]*sigInfo
 	earned0  map[string]int64
 	interest bool
+	lastCan  string
 }
 
 func (s *session) acct(name string) world.Account {
@@ -348,6 +349,7 @@ func (d *Driver) RunScript(sc tf.Script) {
 		s.earned0[a.Name] = w.App.BankKeeper.GetBalance(r.Ctx, a.Addr, "uband").Amount.Int64()
 	}
 	d.W.Reset(sc.C, s.project(), sc.Steps)
+	s.lastCan = fmt.Sprint(s.project()["canSign"])
 	d.Traces++
 	d.Events++
 	for _, step := range sc.Steps {
@@ -393,8 +395,15 @@ func (s *session) apply(step tf.M) bool {
 	tk, bk := w.App.TSSKeeper, w.App.BandtssKeeper
 	e := tf.Str(step, "e", "")
 	if e != "EndBlock" {
+		// environment: nonce top-up; if that changes who can sign, say so in the trace *before* the step
 		s.topUp()
+		if cs := fmt.Sprint(s.project()["canSign"]); cs != s.lastCan {
+			s.lastCan = cs
+			s.d.W.Step("Env", tf.M{}, tf.M{"ok": true}, s.project())
+			s.d.Events++
+		}
 	}
+	defer func() { s.lastCan = fmt.Sprint(s.project()["canSign"]) }()
 	switch e {
 	case "Propose":
 		ms := tf.Strs(step, "ms")
@@ -445,6 +454,13 @@ func (s *session) apply(step tf.M) bool {
 			if err == nil && grp.Status == tsstypes.GROUP_STATUS_ROUND_1 && !pend[g] {
 				gid = g
 				break
+			}
+		}
+		if want := uint64(tf.Int(step, "g", 0)); want != 0 {
+			// explicit id (TLC-generated scripts): only if that group really is in key generation
+			gid = 0
+			if grp, err := tk.GetGroup(r.Ctx, tss.GroupID(want)); err == nil && grp.Status == tsstypes.GROUP_STATUS_ROUND_1 && !pend[want] {
+				gid = want
 			}
 		}
 		kg, ok := s.groups[gid]
@@ -521,6 +537,16 @@ func (s *session) apply(step tf.M) bool {
 			return false
 		}
 		id := ids[(k-1)%len(ids)]
+		if want := uint64(tf.Int(step, "id", 0)); want != 0 {
+			found := false
+			for _, x := range ids {
+				found = found || x == want
+			}
+			if !found {
+				return false
+			}
+			id = want
+		}
 		sg, _ := tk.GetSigning(r.Ctx, tss.SigningID(id))
 		sa, err := tk.GetSigningAttempt(r.Ctx, tss.SigningID(id), sg.CurrentAttempt)
 		kg, ok := s.groups[uint64(sg.GroupID)]
